@@ -320,6 +320,13 @@ def api_cases(thorough):
                         if not thorough and res == 1 and layers not in ("none", "one-mean"):
                             continue
                         yield {"kind": "api", "data": dname, "limits": limits, "log": log, "res": res, "layers": layers, "xy": datasets[dname]}
+    # large offsets and small magnitudes: the same points moved by 2^45 (span / magnitude ~ 1e-13) or scaled by 2^-30 (span ~ 4e-9): a range
+    # is degenerate only if its limits are equal, not if they are close on some absolute or relative scale
+    for xform in ({"xoff": 2.0**45}, {"xscale": 2.0**-30}, {"xoff": -(2.0**40), "yscale": 2.0**-40}):
+        for limits in ("auto", "explicit", "explicit-tight", "half"):
+            for layers in ("none", "one-mean"):
+                for res in (2, 4):
+                    yield dict({"kind": "api", "data": "spread", "limits": limits, "log": "lin", "res": res, "layers": layers, "xy": datasets["spread"]}, **xform)
     # element types of the data: float32 and integer coordinates and weights (all values exactly representable)
     for dt in ("f4", "i8", "i4"):
         xy = datasets["spread"] if dt == "f4" else ([1, 2, 3, 3, 4], [10, 20, 20, 40, 80])
@@ -334,6 +341,8 @@ def run_api_case(acc, idx, c):
 
     A_, L_ = osyris.Array, osyris.core.layer.Layer
     xs, ys = np.array(c["xy"][0], dtype=float), np.array(c["xy"][1], dtype=float)
+    xoff, xsc, ysc = c.get("xoff", 0.0), c.get("xscale", 1.0), c.get("yscale", 1.0)
+    xs, ys = xs * xsc + xoff, ys * ysc
     logx = c["log"] in ("logx", "loglog")
     logy = c["log"] == "loglog"
     dt = {"f4": np.float32, "i8": np.int64, "i4": np.int32}.get(c.get("dtype"), np.float64)
@@ -344,6 +353,7 @@ def run_api_case(acc, idx, c):
     ex = None
     if c["limits"].startswith("explicit") or c["limits"] == "half":
         ex = {"xmin": 0.25, "xmax": 4.25, "ymin": 0.5, "ymax": 128.5} if "tight" not in c["limits"] else {"xmin": 1.0, "xmax": 3.0, "ymin": 15.0, "ymax": 45.0}
+        ex = {k: (v * xsc + xoff if k[0] == "x" else v * ysc) for k, v in ex.items()}
         if c["limits"] == "half":
             ex = {"xmin": ex["xmin"], "ymax": ex["ymax"]}
         # the same limits given as other number types (all values are exactly representable in each of them)
